@@ -45,7 +45,7 @@ m = {
         {"name": "libfuzzer", "path": "pbt/pbt.hpp", "serves_properties": sorted(k for k, c in CHECKS.items() if any(r.get("kind") == "fuzz" for r in c["runs"])),
          "kind_free_text": "coverage-guided libFuzzer campaigns over the same properties (-DPBT_FUZZ: choices decoded from the fuzzer's bytes, oracle inside the target)"},
         {"name": "hypothesis-tools", "path": "props/C01_tools.py", "serves_properties": sorted(k for k, c in CHECKS.items() if any(r.get("kind") == "script" for r in c["runs"])),
-         "kind_free_text": "Hypothesis-driven process-level checks: zck/unzck round trip (props/C01_tools.py), real zckdl against a loopback range server incl. kills (props/C04_zckdl.py)"},
+         "kind_free_text": "Hypothesis-driven process-level checks: zck/unzck round trip (props/C01_tools.py), real zckdl against a loopback range server incl. kills (props/C04_zckdl.py), zck read-segmentation independence and split-string locality (props/C16_tools.py)"},
         {"name": "download-scenarios", "path": "gen/dl.hpp", "serves_properties": ["C04", "C05", "C11", "C12", "C17", "C19"],
          "kind_free_text": "in-process range server, response fragmenter and call-for-call mirror of zckdl's update procedure"},
         {"name": "io-fault-injection", "path": "lib/iofault.c", "serves_properties": ["C11", "C12"],
